@@ -14,6 +14,9 @@ PROPS = {
                       {"harness": "zbuild", "args": ["--what", "offset"]},
                       {"harness": "zbuild", "args": ["--what", "rect", "--nmax", 3]}],
             "thorough": [{"harness": "zbuild", "args": ["--what", "bool", "--scope", "S1", "--nmax", 5]},
+                         {"harness": "zbuild", "args": ["--what", "bool", "--scope", "S1", "--board", "aligned", "--k", 8, "--nmax", 4]},
+                         {"harness": "zbuild", "args": ["--what", "bool", "--scope", "S0", "--board", "twins", "--both", 1, "--k", 16, "--nmin", 4, "--nmax", 5]},
+                         {"harness": "zbuild", "args": ["--what", "bool", "--scope", "S1", "--board", "twins", "--k", 8, "--nmin", 3, "--nmax", 4]},
                          {"harness": "zbuild", "args": ["--what", "bool", "--scope", "S2", "--nmax", 4]},
                          {"harness": "zbuild", "args": ["--what", "open", "--k", 6, "--ko", 6]},
                          {"harness": "zbuild", "args": ["--what", "offset", "--nmax", 5, "--ko", 6]},
